@@ -52,10 +52,13 @@ class ParamTreeNode:
       if self.children is None:
         self.children = {}
       for comp_name, node in other.children.items():
-        if comp_name in self.children:
-          self.children[ comp_name ].merge( node )
-        else:
-          self.children[ comp_name ] = node
+        if comp_name not in self.children:
+          # Merge into a fresh node: sharing `node` with the tree it comes
+          # from lets a later merge leak parameters back into that tree
+          new_node = ParamTreeNode()
+          new_node.compiled_re = node.compiled_re
+          self.children[ comp_name ] = new_node
+        self.children[ comp_name ].merge( node )
 
   def add_params( self, strs, func_name, **kwargs ):
 
